@@ -9,6 +9,10 @@ from . import imsaak
 
 
 def run(ctx, rep):
+    # the reported time is a function of the request alone: a cache or other hidden state on the computation path makes it depend on what was
+    # computed before (C20's R20.5) - the same place and date, asked with another school, angle or weather, would get the earlier answer
+    from . import shared, c20 as _c20h
+    shared.include(ctx, rep, _c20h.run, {'R20.5'}, why='no thread-local, static or lock-protected state on the computation path')
     rep.explanation = (
         'Decides on the reconstructed twilight-solver terms: key flow (Fajr reads angles[Fajr] only, Isha angles[Isha] only; Imsaak '
         'perturbs only the Fajr entries of a clone and is the Fajr of the rerun), orientation around the very Dhuhr term with offsets in '
